@@ -110,19 +110,33 @@ def make_case(k, form, a, s, b, stream, inline=False):
     stepf = form in ("exs", "ins")
     if not stepf:
         s = one_of(k)
+    def il(v):
+        if k in ms.INT_KINDS:
+            return "%d%s" % (v, k)
+        if k == "f32":
+            return "%s<f32>" % lit(k, v)
+        return lit(k, v)
     if inline:
-        def il(v):
-            if k in ms.INT_KINDS:
-                return "%d%s" % (v, k)
-            return lit(k, v)
         src = expr(form, il(a), il(s), il(b))
     else:
-        lines = [define("a", k, a)]
-        if stepf:
+        # each operand is written either as a variable or as an inline literal: the range kernels' compile step has
+        # separate arms for every combination of plain values and variable references.  The choice is a deterministic
+        # function of the case (3 bits of a CRC), so that replays are exact; about 40% of the cases are mixed.
+        import zlib
+        h = zlib.crc32(repr((k, form, a, s, b)).encode())
+        mixed = (h % 5) < 2 and k != "c64" and not (k in ms.INT_KINDS and k[0] == "i" and min(a, s, b) < 0)
+        use_var = [True, True, True] if not mixed else [bool((h >> 8) & 1), bool((h >> 9) & 1), bool((h >> 10) & 1)]
+        lines = []
+        if use_var[0]:
+            lines.append(define("a", k, a))
+        if stepf and use_var[1]:
             lines.append(define("s", k, s))
-        lines.append(define("b", k, b))
-        lines.append(expr(form, "a", "s", "b"))
+        if use_var[2]:
+            lines.append(define("b", k, b))
+        lines.append(expr(form, "a" if use_var[0] else il(a), "s" if use_var[1] else il(s), "b" if use_var[2] else il(b)))
         src = "\n".join(lines)
+        if mixed:
+            stream = stream + "-mixed"
     cls = "c64" if k == "c64" else classify(form, a, s, b)
     return dict(sx=sx(["range", k, form, ms.payload(k, a), ms.payload(k, s), ms.payload(k, b)]),
                 impl=dict(src=src),
